@@ -90,13 +90,13 @@ func c20Run(c c20Case, st *fw.Stats) []fw.Viol {
 	switch c.Kind {
 	case "auth":
 		accounts := c20Accounts[c.Accounts]
-		for _, placement := range []string{"route", "global", "group", "global+405", "global+404", "route-dynamic-cached", "route-dynamic-cached-repeat", "nested-group-siblings", "group-use-siblings", "nested-group-siblings-single-mw", "group-use-siblings-single-mw", "global-two-gates", "group-use-two-gates", "banner-then-gate", "late-global-gate", "forwarded-to-gated-route", "notfound-chain-gate-single-mw", "resource-update-put", "resource-update-patch", "after-escaped-panic", "attached-in-group-then-use"} {
+		for _, placement := range []string{"route", "global", "group", "global+405", "global+404", "route-dynamic-cached", "route-dynamic-cached-repeat", "nested-group-siblings", "group-use-siblings", "nested-group-siblings-single-mw", "group-use-siblings-single-mw", "global-two-gates", "group-use-two-gates", "banner-then-gate", "late-global-gate", "forwarded-to-gated-route", "notfound-chain-gate-single-mw", "resource-update-put", "resource-update-patch", "after-escaped-panic", "attached-in-group-then-use", "group-gate-controller-own-mw", "group-gate-controller-no-mw", "late-gated-route-warm-cache"} {
 			for _, hdr := range c20Auth {
 				st.Evals++
 				st.Nontrivial++
 				var trace []string
 				r := rux.New(rux.HandleMethodNotAllowed)
-				if strings.HasPrefix(placement, "route-dynamic-cached") {
+				if strings.HasPrefix(placement, "route-dynamic-cached") || placement == "late-gated-route-warm-cache" {
 					r = rux.New(rux.HandleMethodNotAllowed, rux.CachingWithNum(2))
 				}
 				pass := func(ctx *rux.Context) {}
@@ -173,6 +173,20 @@ func c20Run(c c20Case, st *fw.Stats) []fw.Viol {
 						}
 					}
 					trace = nil
+				case "group-gate-controller-own-mw":
+					// the gate is group middleware; inside the group a controller is mounted with middleware of its own
+					r.Group("/in", func() { r.Controller("/c", c20Ctl(func(g *rux.Router) { g.GET("/s", main) }), after) }, auth)
+				case "group-gate-controller-no-mw":
+					r.Group("/in", func() { r.Controller("/c", c20Ctl(func(g *rux.Router) { g.GET("/s", main, after) })) }, auth)
+				case "late-gated-route-warm-cache":
+					// caching router: a public two-variable route answered the path (twice) before the gated, more specific
+					// route was registered
+					r.GET("/{section}/{page}", func(ctx *rux.Context) { ctx.WriteString("public") })
+					r.GET("/pre/{page}", func(ctx *rux.Context) { ctx.WriteString("public") })
+					for i := 0; i < 2; i++ {
+						_ = try(func() { r.ServeHTTP(httptest.NewRecorder(), httptest.NewRequest("GET", "/s/7", nil)) })
+					}
+					r.GET("/s/{page}", main, auth, after)
 				case "attached-in-group-then-use":
 					// a Route value attached inside a group; the gate is added to it afterwards with Route.Use
 					rt := rux.NewRoute("/s", main, "GET")
@@ -246,6 +260,12 @@ func c20Run(c c20Case, st *fw.Stats) []fw.Viol {
 					req = httptest.NewRequest("GET", "/s/7", nil)
 				case "nested-group-siblings", "group-use-siblings", "nested-group-siblings-single-mw", "group-use-siblings-single-mw", "group-use-two-gates", "attached-in-group-then-use":
 					req = httptest.NewRequest("GET", "/in/s", nil)
+				}
+				if strings.HasPrefix(placement, "group-gate-controller") {
+					req = httptest.NewRequest("GET", "/in/c/s", nil)
+				}
+				if placement == "late-gated-route-warm-cache" {
+					req = httptest.NewRequest("GET", "/s/7", nil)
 				}
 				if placement == "forwarded-to-gated-route" {
 					req = httptest.NewRequest("GET", "/fwd", nil)
@@ -569,7 +589,7 @@ func c20Run(c c20Case, st *fw.Stats) []fw.Viol {
 var c20Spec = fw.Spec[c20Case]{
 	ID:    "C20",
 	Level: "model_checking",
-	Rule: "complete decision tables: HTTPBasicAuth: 6 account maps (nil, empty, one user, empty password, two users, password containing ':') x 27 Authorization values (incl. the full square of known / unknown / empty users x matching / other / empty passwords) (absent, valid, wrong password, unknown user, empty user / password, no colon, bare scheme, bad base64, scheme in other case, other scheme, double space, padding, leading space, case-changed user, empty) x 21 placements (right after a request whose first handler panicked without a hook (the caller recovered); on a Route value attached inside a group and given the gate afterwards with Route.Use; per-action middleware of a resource's two-method Update action, asked with PUT and with PATCH; first handler of a custom NotFound chain on a router without global middleware that served unmatched and matched requests before; two stacked gates with different account lists are among them; a global gate installed after the route served its first request; the gated route reached through another route's middleware that re-dispatches with HandleContext; behind a middleware that has already written body bytes; two gates registered from one call site with Router.Use, globally and inside a group; route, global, group middleware; global gate in front of the not-allowed and of the not-found handlers; a dynamic route on a caching router, first request and repeat after a valid one filled the cache; route-level gate of the first of several sibling routes inside nested groups / inside a group with three Use calls, with two and with exactly one route-level middleware per sibling); " +
+	Rule: "complete decision tables: HTTPBasicAuth: 6 account maps (nil, empty, one user, empty password, two users, password containing ':') x 27 Authorization values (incl. the full square of known / unknown / empty users x matching / other / empty passwords) (absent, valid, wrong password, unknown user, empty user / password, no colon, bare scheme, bad base64, scheme in other case, other scheme, double space, padding, leading space, case-changed user, empty) x 24 placements (a group gate around a controller mounted with / without middleware of its own; a gated dynamic route registered on a caching router after a public two-variable route had answered the path; right after a request whose first handler panicked without a hook (the caller recovered); on a Route value attached inside a group and given the gate afterwards with Route.Use; per-action middleware of a resource's two-method Update action, asked with PUT and with PATCH; first handler of a custom NotFound chain on a router without global middleware that served unmatched and matched requests before; two stacked gates with different account lists are among them; a global gate installed after the route served its first request; the gated route reached through another route's middleware that re-dispatches with HandleContext; behind a middleware that has already written body bytes; two gates registered from one call site with Router.Use, globally and inside a group; route, global, group middleware; global gate in front of the not-allowed and of the not-found handlers; a dynamic route on a caching router, first request and repeat after a valid one filled the cache; route-level gate of the first of several sibling routes inside nested groups / inside a group with three Use calls, with two and with exactly one route-level middleware per sibling); " +
 		"HTTPMethodOverrideHandler: 10 request methods x 13 override values x 9 carriers (none, header, query, body, header+query agreeing, header+body disagreeing - for totality only -, and a carrier next to an unrelated malformed query / body pair) x {a plain net/http handler downstream, a rux router whose handler sits behind handlers.Timeout and a wrapped net/http handler}; WrapHTTPHandlers: lists of 1..4 distinguishable wrappers (+ the override gate in the list); WrapHTTPHandler / WrapHTTPHandlerFunc and their four aliases at every subset of positions of chains n<=4; every row is non-trivial",
 	Assume: []string{"'well-formed Basic credentials' = scheme Basic (any case), one space, valid base64, a colon in the decoded text", "when both override carriers disagree the statement does not say which wins; those rows are executed but not asserted"},
 	Bounds: func(tier string) map[string]any {
@@ -583,3 +603,8 @@ var c20Spec = fw.Spec[c20Case]{
 func init() {
 	Registry["C20"] = func(args []string) int { return fw.Main(c20Spec, args) }
 }
+
+// c20Ctl is a controller (rux.ControllerFace) from a function.
+type c20Ctl func(r *rux.Router)
+
+func (c c20Ctl) AddRoutes(r *rux.Router) { c(r) }
